@@ -40,11 +40,18 @@ def plan(tier, seed):
                        'sets_loaded_together': 2500, 'import_calls_recorded': 400000}}
 
 
+def hostile_text(rng):
+    """any legal text content: line breaks of every kind, backslashes, apostrophes, non-ASCII"""
+    from checks import c15_texts
+    return c15_texts.make_text(rng)
+
+
 def make_set(rng, tier, stress):
     prof = gen.profile(modules=(2, 4), nodes=(1, 4), scalars=(1, 4), tables=(0, 2), types=(0, 3),
                        notifs=(0, 2), groups=(0, 2), syntax='rich',
                        features=['traps', 'compliance', 'capabilities', 'types', 'smi_tc', 'defval',
-                                 'defval_zero', 'defval_bits', 'defval_oid'],
+                                 'defval_zero', 'defval_bits', 'defval_oid', 'split_imports'],
+                       text_fn=(hostile_text if rng.random() < 0.25 else None),
                        p_hyphen=rng.choice([0.0, 0.3, 0.6]), p_cross_parent=0.7, p_foreign_index=0.4,
                        p_foreign_member=0.4, p_chain=0.6)
     g = gen.SetGen(rng, prof)
